@@ -189,9 +189,8 @@ func (b *streamableBE) exec(o op) string {
 		return b.startRequest(*o.S, *o.M, func(ctx context.Context) (*mcp.ListRootsResult, error) { return b.f.S.ListRoots(ctx) },
 			func() int { return len(b.reqFrames(*o.S)) }, func(k int) int64 { return b.reqFrames(*o.S)[k] }, b.ctxs[*o.S])
 	case "postAnswer":
-		raw := rawID(o.ID)
-		b.poster[*o.Payload] = *o.P
-		r := b.f.Post(map[string]string{"Mcp-Session-Id": b.sid(*o.P)}, answerBody(raw, *o.Payload))
+		b.notePost(o)
+		r := b.f.Post(map[string]string{"Mcp-Session-Id": b.sid(*o.P)}, answerBodyOf(o))
 		return fmt.Sprintf("posted:%d", r.Status)
 	case "settle":
 		return b.settle(*o.M)
@@ -423,8 +422,8 @@ func (b *legacyBE) exec(o op) string {
 		return b.startRequest(s, *o.M, func(ctx context.Context) (*mcp.ListRootsResult, error) { return b.srv.ListRoots(ctx) },
 			func() int { return len(b.reqFrames(s)) }, func(k int) int64 { return b.reqFrames(s)[k] }, b.ctxs[s])
 	case "postAnswer":
-		b.poster[*o.Payload] = *o.P
-		return fmt.Sprintf("posted:%d", b.post(*o.P, answerBody(rawID(o.ID), *o.Payload)))
+		b.notePost(o)
+		return fmt.Sprintf("posted:%d", b.post(*o.P, answerBodyOf(o)))
 	case "settle":
 		return b.settle(*o.M)
 	}
@@ -495,6 +494,7 @@ type stdioBE struct {
 	mu     sync.Mutex
 	lines  []string
 	sctx   context.Context // the context a tool handler received (carries the session)
+	gate   sync.Mutex      // held while the peer is "not reading" the server's stdout
 }
 
 type notifSession interface {
@@ -521,6 +521,8 @@ func newStdio(c *hk.Ctx, start int64) *stdioBE {
 	go func() {
 		br := bufio.NewReaderSize(or, 1<<20)
 		for {
+			b.gate.Lock()
+			b.gate.Unlock()
 			l, err := br.ReadString('\n')
 			if strings.TrimSpace(l) != "" {
 				b.mu.Lock()
@@ -554,7 +556,9 @@ func (b *stdioBE) snapshot() []string {
 
 func (b *stdioBE) reqFrames() []int64 { sn, _ := classifyFrames(b.snapshot()); return sn.reqID }
 
-func (b *stdioBE) notify(m int) error {
+func (b *stdioBE) notify(m int) error { return b.notifyParams(tagParams(m)) }
+
+func (b *stdioBE) notifyParams(params map[string]interface{}) error {
 	sess, ok := mcp.GetSessionFromContext(b.sctx)
 	if !ok {
 		return fmt.Errorf("session not found")
@@ -563,7 +567,7 @@ func (b *stdioBE) notify(m int) error {
 	if !ok {
 		return fmt.Errorf("session has no notification channel")
 	}
-	n := mcp.NewJSONRPCNotificationFromMap("notifications/message", tagParams(m))
+	n := mcp.NewJSONRPCNotificationFromMap("notifications/message", params)
 	select {
 	case ns.NotificationChannel() <- *n:
 		return nil
@@ -589,8 +593,8 @@ func (b *stdioBE) exec(o op) string {
 		if *o.P != 0 {
 			return "posted:404"
 		}
-		b.poster[*o.Payload] = 0
-		b.in.Write([]byte(answerBody(rawID(o.ID), *o.Payload) + "\n"))
+		b.notePost(o)
+		b.in.Write([]byte(answerBodyOf(o) + "\n"))
 		// the line is handled in its own goroutine: a marker request that is answered after it would not prove anything, so
 		// wait until the answer was either put into its waiter's channel or cannot be (no entry / entry already full)
 		b.awaitDispatch(o)
